@@ -79,6 +79,12 @@ def run(pid, spec, tier, seed, merged, drv):
         for tag, feats in (("default", None), ("variablelist-only", ["variablelist"])):
             cli = drv.build_cli(features=feats, tag=tag)
             cli_leg(drv, merged, binary, "c14cli", seed, tier, cli, params.get("cli_cases", 40), "cli[%s]" % tag)
+    if pid in CLI_FLAG_LEGS:
+        # the property names command-line flags among its observation points: the same oracle judges what the
+        # tool prints for exactly these flags, in all three library modes and under every sort flag
+        cli = drv.build_cli(tag="default")
+        cli_leg(drv, merged, binary, "c15", seed, tier, cli, params.get("cli_cases", 25), "cli[%s]" % CLI_FLAG_LEGS[pid],
+                extra={"only_flags": CLI_FLAG_LEGS[pid], "big_cli_cases": 1 if pid == "C01" else 0}, shards=8)
     if pid == "C08":
         cli = drv.build_cli(tag="default")
         cli_leg(drv, merged, binary, "c15", seed, tier, cli, params.get("cli_cases", 30), "cli-malformed",
@@ -364,6 +370,16 @@ def sanitizer_leg(drv, merged, kind, sub, seed, shards, cases, extra=None, timeo
     merged.legs.append(leg)
     shutil.rmtree(tmp, ignore_errors=True)
 
+
+# command-line observation points of the library properties (flags of `adf-bdd`)
+CLI_FLAG_LEGS = {
+    "C01": "grd",
+    "C02": "grd,com",
+    "C03": "stm,stmpre,stmrew,stmrew2",
+    "C04": "stmca,stmcb",
+    "C05": "stmng,twoval",
+    "C10": "grd,com,stm,stmrew,twoval",
+}
 
 # which sanitizer legs a property's thorough tier adds: (kind, sub-command, shards, cases, extra args)
 SANITIZER_PLAN = {
